@@ -290,6 +290,8 @@ theorem YStar_of_DStar (x y : P2P × TLState) (h : DStar x y) : YStar x y := by
       | remoteInput s s' t now inp player handles addr hnl h0 hev =>
         exact YStep.base _ _ (XStep.remoteInput s s' t now inp player handles addr hnl h0 hev)
       | tick s s' t now reqs' hadv => exact YStep.base _ _ (XStep.tick s s' t now reqs' hadv)
+      | localInput s t handle input => exact YStep.base _ _ (XStep.localInput s t handle input)
+      | saves s t sv => exact YStep.base _ _ (XStep.saves s t sv)
     | setDelay s s' t now handle delay r hloc hp hset => exact YStep.setDelay s s' t now handle delay r hloc hp hset
 
 end Ggrs
